@@ -256,6 +256,26 @@ pub fn gen_inputs(rng: &mut StdRng, n: usize, with_trailing: bool) -> Vec<Input>
         let mut d = f.serialize().bytes;
         d.extend_from_slice(&trailing);
         v.push(Input { fmt: Fmt::Xz, data: d, name: format!("xz/{}blocks+{}", f.blocks.len(), trailing.len()), payload_len: None });
+        if !with_trailing {
+            // one integer field replaced by a value that agrees with the true one in its low bits only (enclosing
+            // CRC32 repaired): invalid files whose verdict must not depend on the reader either - a second code path
+            // that narrows the field differently is taken only under some fragmentations
+            let lay = f.serialize();
+            let true_bw = (lay.index_size / 4 - 1) as u32;
+            let mut g = f.clone();
+            match i % 6 {
+                0 => g.backward = Some(true_bw | 0x4000_0000),
+                1 => g.backward = Some(true_bw | 0x8000_0000),
+                2 => g.idx_rec_add = Some((0, 0, 1 << 32)),
+                3 => g.idx_rec_add = Some((0, 1, 1 << 32)),
+                4 => g.idx_count = Some(f.blocks.len() as u64 + (1 << 32)),
+                _ => {
+                    g.blocks[0].has_unpacked = true;
+                    g.blocks[0].unpacked_decl = Some(f.blocks[0].content.len() as u64 + (1 << 32));
+                }
+            }
+            v.push(Input { fmt: Fmt::Xz, data: g.serialize().bytes, name: format!("xz-aliased-field{}/{}blocks+0", i % 6, g.blocks.len()), payload_len: None });
+        }
         if !with_trailing && i % 2 == 0 {
             // index integers in a non-minimal encoding (self-consistent file): whatever the decoder thinks of them,
             // it must think the same under every fragmentation (C13 only; C11 does not fix the verdict)
@@ -306,6 +326,20 @@ pub fn run_c13(prop: &str, seed: u64, n: usize, trace_path: Option<&str>, rep: &
         for cap in [1usize, 2, 3, 7, 64, rng.gen_range(1..200)] {
             kinds.push(("bufreader", vec![cap]));
         }
+        // "reader buffer capacities 1..n": every capacity for small inputs (a refill boundary at every offset, and
+        // the capacities that make a refill end exactly where a field or the file ends)
+        if inp.data.len() <= 260 {
+            for cap in 1..=inp.data.len() + 1 {
+                if ![1usize, 2, 3, 7, 64].contains(&cap) {
+                    kinds.push(("bufreader", vec![cap]));
+                }
+            }
+        } else {
+            for q in 1..=6usize {
+                kinds.push(("bufreader", vec![(inp.data.len() / q).max(1)]));
+                kinds.push(("bufreader", vec![((inp.data.len() - 12) / q).max(1)]));
+            }
+        }
         for (k, param) in kinds {
             let want_log = k == "script" && trace.len() < 80000;
             let r = run_kind(inp.fmt, &inp.data, k, &param, if want_log { Some(&mut trace) } else { None });
@@ -349,7 +383,27 @@ pub fn run_c11(prop: &str, seed: u64, n: usize, rep: &mut Report) {
             Fmt::Lzma2 => Some(expect_lzma2(&inp.data)),
             Fmt::Xz => None,
         };
-        for (k, param) in [("slice", vec![]), ("cursor", vec![]), ("script", vec![1]), ("script", vec![3, 1, 2]), ("bufreader", vec![1]), ("bufreader", vec![5]), ("bufreader", vec![4096])] {
+        let mut kinds: Vec<(&str, Vec<usize>)> = vec![("slice", vec![]), ("cursor", vec![]), ("script", vec![1]), ("script", vec![3, 1, 2]), ("bufreader", vec![1]), ("bufreader", vec![5]), ("bufreader", vec![4096])];
+        // "BufReader of any capacity": every capacity for small inputs, and for the others the capacities whose
+        // refills end exactly at the end of the payload / of the file (a buffer that happens to end there says
+        // nothing about the input ending there)
+        let trail: usize = inp.name.rsplit('+').next().and_then(|t| t.parse().ok()).unwrap_or(0);
+        let end = inp.payload_len.unwrap_or(inp.data.len() - trail.min(inp.data.len()));
+        if inp.data.len() <= 200 {
+            for cap in 2..=inp.data.len() + 1 {
+                if cap != 5 {
+                    kinds.push(("bufreader", vec![cap]));
+                }
+            }
+        } else {
+            for q in 1..=8usize {
+                if end % q == 0 && end / q > 5 {
+                    kinds.push(("bufreader", vec![end / q]));
+                }
+            }
+            kinds.push(("bufreader", vec![inp.data.len()]));
+        }
+        for (k, param) in kinds {
             let r = run_kind(inp.fmt, &inp.data, k, &param, None);
             let mut vs = vec![];
             if r.verdict == Verdict::Panic {
